@@ -6,6 +6,7 @@ import (
 	"fmt"
 	"math/rand"
 	"os"
+	"strings"
 	"time"
 
 	"verif/harness/vdisk"
@@ -163,7 +164,7 @@ func RunCrash(cfg CrashCfg, t *Trace, seg int) int {
 	seg++
 	g.limits()
 	if cfg.Profile == "script" {
-		crashScript(g, cfg.Seed)
+		crashScript(g, cfg.Seed/1000) // the -seed value selects the script (Seed = seed*1000 + segment)
 	} else {
 		for n := 0; n < cfg.Ops && !s.Wedged; n++ {
 			g.step()
@@ -409,7 +410,7 @@ func crashScript(g *seqGen, variant int) {
 		c.Fh, c.Name, c.NLen = d, n, len(n)
 		g.learn(g.emit(c))
 	}
-	switch variant % 4 {
+	switch variant % 5 {
 	case 0: // holes filled by non-growing multi-block writes; pre-sized file
 		f := mk("CREATE", root, "f")
 		wr(f, B, B, 2)   // block 1, block 0 stays a hole
@@ -447,6 +448,22 @@ func crashScript(g *seqGen, variant int) {
 		wr(a, 100, 50, 0)
 		mk("MKDIR", root, "d")
 		wr(b, 0, 10, 0)
+	case 4: // a request that is refused because its transaction is larger than the journal, between UNSTABLE writes and COMMIT
+		a := mk("CREATE", root, "a")
+		b := mk("CREATE", root, "b")
+		wr(a, 0, 5000, 0)
+		{
+			c := NewCall("SYMLINK")
+			c.Fh, c.Name, c.NLen = root, "huge", 4
+			c.Target = strings.Repeat("t", 2400000)
+			c.TLen = len(c.Target)
+			g.learn(g.emit(c))
+		}
+		simple("COMMIT", a)
+		wr(b, 0, 3000, 0)
+		simple("GETATTR", b)
+		simple("COMMIT", b)
+		wr(a, 8192, 100, 2)
 	case 3: // namespace: renames over existing targets, directory trees
 		d := mk("MKDIR", root, "d")
 		e := mk("MKDIR", d, "e")
